@@ -11,8 +11,9 @@ import threading
 import time
 
 VERIF = os.path.dirname(os.path.dirname(os.path.abspath(__file__)))
-VH = os.path.join(VERIF, "harness", "target", "debug", "vh")
-VH_FAST = os.path.join(VERIF, "harness", "target", "fast", "vh")
+HARNESS = os.environ.get("VERIF_HARNESS", os.path.join(VERIF, "harness"))
+VH = os.path.join(HARNESS, "target", "debug", "vh")
+VH_FAST = os.path.join(HARNESS, "target", "fast", "vh")
 
 
 class Worker:
